@@ -94,16 +94,30 @@ class Prop(SeqProp):
             else:
                 c = rng.randint(1, 6)
                 ops.append(f"new {c}")
+                # equality-based calls (index / count / in) are compared with the model only in cases whose payload codes denote
+                # pairwise unequal objects (the codes 4 = False and 5 = 0.0 equal code 1 = 0 in Python); the battery beside a
+                # Python list covers the equal-but-not-identical payloads
+                eqops = rng.random() < 0.5
+                small = [0, 1, 2, 3] if eqops else [0, 1, 2, 3, 4, 5]
                 for j in range(rng.randint(0, 25)):
                     r = rng.random()
                     if r < 0.55:
-                        ops.append(f"put {j + 6 if rng.random() < 0.8 else rng.randint(0, 5)}")
+                        ops.append(f"put {j + 6 if rng.random() < 0.8 else rng.choice(small)}")
                     elif r < 0.62:
                         ops.append("clear")
                     elif r < 0.8:
                         ops.append(f"get {rng.randint(-2, c + 1)}")
-                    elif r < 0.9:
+                    elif r < 0.86:
                         ops.append("list")
+                    elif r < 0.95:
+                        # the inherited Sequence interface (model: Model/RingSeq.lean): index with bounds, count, in, reversed
+                        v = (6 + rng.randint(0, j + 3)) if rng.random() < 0.6 else rng.choice(small)
+                        bound = lambda: rng.choice(["-", str(rng.randint(-7, 7))])
+                        if eqops:
+                            ops.append(rng.choice([f"index {v}", f"index {v} {bound()}", f"index {v} {bound()} {bound()}",
+                                                   f"count {v}", f"has {v}", "rev", "iter"]))
+                        else:
+                            ops.append(rng.choice(["rev", "iter"]))
                     else:
                         ops.append("len")
                 ops.append("list")
@@ -187,6 +201,19 @@ class Prop(SeqProp):
                         out.append(f"ret {enc_val(obj[int(w[1])])}")
                     elif w[0] == "len":
                         out.append(f"ret {len(obj)}")
+                    elif w[0] == "index":
+                        args = [dec_val(int(w[1]))] + [int(x) for x in w[2:] if x != "-"]
+                        if len(w) == 4 and w[2] == "-":
+                            args = [dec_val(int(w[1])), 0] + ([int(w[3])] if w[3] != "-" else [])
+                        out.append(f"ret {obj.index(*args)}")
+                    elif w[0] == "count":
+                        out.append(f"ret {obj.count(dec_val(int(w[1])))}")
+                    elif w[0] == "has":
+                        out.append(f"ret {1 if dec_val(int(w[1])) in obj else 0}")
+                    elif w[0] == "rev":
+                        out.append("list " + s(enc_val(x) for x in reversed(obj)))
+                    elif w[0] == "iter":
+                        out.append("list " + s(enc_val(x) for x in itertools.islice(iter(obj), 10000)))
                     elif w[0] == "list":
                         items = list(itertools.islice(iter(obj), 10000))
                         out.append("list " + s(enc_val(x) for x in items) + (",?endless" if len(items) == 10000 else ""))
@@ -280,6 +307,22 @@ class Prop(SeqProp):
                     if w[0] == "get":
                         k = int(w[1])
                         exp = f"ret {view[k]}" if 0 <= k < len(view) else "err IndexError"
+                    elif w[0] == "index":
+                        args = [int(w[1])] + [int(x) for x in w[2:] if x != "-"]
+                        if len(w) == 4 and w[2] == "-":
+                            args = [int(w[1]), 0] + ([int(w[3])] if w[3] != "-" else [])
+                        try:
+                            exp = f"ret {view.index(*args)}"
+                        except ValueError:
+                            exp = "err ValueError"
+                    elif w[0] == "count":
+                        exp = f"ret {view.count(int(w[1]))}"
+                    elif w[0] == "has":
+                        exp = f"ret {1 if int(w[1]) in view else 0}"
+                    elif w[0] == "rev":
+                        exp = "list " + s(reversed(view))
+                    elif w[0] == "iter":
+                        exp = "list " + s(view)
                     elif w[0] == "len":
                         exp = f"ret {len(view)}"
                     else:
